@@ -23,7 +23,12 @@ PROP = {
                   "minimality), count and split = the greedy cluster-list specs, split then join gives back the bytes, hex round trip. "
                   "Tied to /repo by stream `str`: strings biased to combining marks, ZWJ emoji, skin tones, regional "
                   "indicators, Hangul syllables and jamo, CR LF, Indic conjuncts, prepend characters and empty strings; "
-                  "needles from cluster-aligned and misaligned fragments; every operation (length, index, slice, iteration, "
+                  "needles from cluster-aligned and misaligned fragments, and self-overlapping needles (repeated regional "
+                  "indicators, LF after CR LF, units after a prepend character, base+mark periods) in receivers whose first "
+                  "byte-level occurrence is not on cluster boundaries while a later occurrence overlapping it is; concat "
+                  "also after the character length of both operands was evaluated on the very same values (length, index, "
+                  "slice) with operands whose junction merges into one cluster or composes under NFC, observing the "
+                  "length, the iterated characters, equality with the literal and the full slice; every operation (length, index, slice, iteration, "
                   "utf8, index/contains/count, split, replaceAll, concat, join, literal normalisation, encodeHex/decodeHex, "
                   "ASCII toLower) through *interpreter.StringValue directly and through scripts in both engines; Go is "
                   "compared with the model and, independently, with an executable cluster-list spec (first aligned "
@@ -36,7 +41,8 @@ PROP = {
     "assumptions": ["the segmentation of a substring cut at cluster boundaries is the corresponding sub-list of clusters "
                     "(slice re-segments v.Str[start:end]); exercised by every split/count/replace line",
                     "re-normalisation after concat/join is taken from the harness (x/text); replaceAll is generated with "
-                    "replacement texts whose junctions are NFC-stable"],
+                    "replacement texts whose junctions are NFC-stable (the empty replacement only when no two clusters "
+                    "of the receiver compose when put next to each other)"],
     "trusted_base": ["hand-written port Verif.Model.Str validated by stream str",
                      "Go harness cmd/vharness/stream_str.go", "driver Drv/Str.lean"],
 }
